@@ -45,6 +45,10 @@ func caseRng(seed int64, idx int) *rand.Rand {
 }
 
 func main() {
+	if os.Getenv("VERIF_CHILD") == "sqlite" {
+		childSqlite()
+		return
+	}
 	fam := flag.String("family", "", "family name")
 	tier := flag.String("tier", "quick", "quick|thorough")
 	seed := flag.Int64("seed", 1, "seed")
